@@ -64,9 +64,15 @@ PROPS = {
     },
     "C15": {
         "harness": "c15",
-        "theorems": ["DL.C15_bijection", "DL.C15_ids", "DL.C15_ids_across", "DL.C15_empty", "DL.C15_sources", "DL.iterChain_ok"],
-        "partial": ["acceptance of the DOT text by Graphviz is runtime behaviour: the harness pipes graphs through `dot -Tsvg`",
-                    "HTML naming of the cells and graphviz text emission are outside the model (parsed back by the harness)"],
+        "theorems": ["DL.C15_bijection", "DL.C15_ids", "DL.C15_ids_across", "DL.C15_empty", "DL.C15_sources", "DL.iterChain_ok",
+                     "DL.C15_slots", "DL.C15_label_wellformed", "DL.C15_graph_labels", "DL.C15_ports", "DL.escape_textOK", "DL.escape_plain",
+                     "DL.safeHtml_textOK"],
+        "partial": ["acceptance of the DOT text by Graphviz is runtime behaviour: C15_label_wellformed / C15_graph_labels prove that every "
+                    "node label is derivable in a subset of Graphviz's grammar of HTML-like labels (a table of >= 1 rows of >= 1 cells of "
+                    "well-formed text) for names of any spelling, given well-formed HTML spellings in the particle table (oracle; every "
+                    "spelling of the installed table is piped through `dot` on every run); the label text of every node is compared with "
+                    "the model's on every run; the statement line syntax of the DOT file itself is written by the graphviz package and is "
+                    "checked by piping graphs through `dot -Tsvg`"],
         "assumptions": ["the process-wide counter is the only source of node numbers (the harness runs sessions with varied graph attributes)"],
     },
     "C16": {
